@@ -69,7 +69,9 @@ impl StyleSheetOutput {
         }
         self.prev_ser_type = next_ser_type;
         let output_start_pos = self.s.len();
-        token.to_css(&mut self.s).unwrap();
+        if !write_integer_token(&mut self.s, &token) {
+            token.to_css(&mut self.s).unwrap();
+        }
         let name = src.map(|x| {
             let s = x.to_css_string();
             self.source_map.add_name(&s)
@@ -94,4 +96,52 @@ impl StyleSheetOutput {
             self.append_token(token, src);
         }
     }
+}
+
+/// Write a numeric token that has an integer value with all its digits.
+///
+/// The general serializer rounds to 6 significant digits, which is wrong for integers.
+fn write_integer_token(s: &mut String, token: &Token) -> bool {
+    let (has_sign, value, int_value) = match token {
+        Token::Number {
+            has_sign,
+            value,
+            int_value: Some(int_value),
+        } => (*has_sign, *value, *int_value),
+        Token::Percentage {
+            has_sign,
+            unit_value,
+            int_value: Some(int_value),
+        } => {
+            if (*int_value as f64 / 100.) as f32 != *unit_value {
+                return false;
+            }
+            (*has_sign, (*int_value as f32).copysign(*unit_value), *int_value)
+        }
+        Token::Dimension {
+            has_sign,
+            value,
+            int_value: Some(int_value),
+            unit,
+        } if !(unit.as_ref() == "e" || unit.starts_with("e-")) => (*has_sign, *value, *int_value),
+        _ => return false,
+    };
+    if int_value as f32 != value {
+        // a derived token whose integer value does not stand for the value (out of range, or rounded)
+        return false;
+    }
+    if has_sign && value.is_sign_positive() {
+        s.push('+');
+    }
+    if int_value == 0 && value.is_sign_negative() {
+        s.push_str("-0");
+    } else {
+        write!(s, "{}", int_value).unwrap();
+    }
+    match token {
+        Token::Percentage { .. } => s.push('%'),
+        Token::Dimension { unit, .. } => cssparser::serialize_identifier(unit, s).unwrap(),
+        _ => {}
+    }
+    true
 }
